@@ -369,4 +369,5 @@ func runC16(c *report.Ctx) {
 		}
 	}
 	ruleMaturityPerTemplate(c)
+	ruleAPIOwnerOfStaking(c)
 }
